@@ -1,8 +1,36 @@
 package driver
 
-import "github.com/avos-io/goat"
+import (
+	"context"
 
-func (rt *runtimeS) serverObservers() []goat.ServerOption    { return nil }
-func (rt *runtimeS) clientObservers(i int) []goat.DialOption { return nil }
-func (rt *runtimeS) setupTopo()                              { panic("verif-harness: topology not implemented: " + rt.sc.Topo) }
-func (rt *runtimeS) stepExtra(st Step) bool                  { return false }
+	"github.com/avos-io/goat"
+	"google.golang.org/grpc/stats"
+)
+
+// nopStats is a stats.Handler that only exercises the library's stats paths
+// (C20 has recording handlers of its own in x_observers.go).
+type nopStats struct{}
+
+func (nopStats) TagRPC(ctx context.Context, _ *stats.RPCTagInfo) context.Context   { return ctx }
+func (nopStats) HandleRPC(context.Context, stats.RPCStats)                         {}
+func (nopStats) TagConn(ctx context.Context, _ *stats.ConnTagInfo) context.Context { return ctx }
+func (nopStats) HandleConn(context.Context, stats.ConnStats)                       {}
+
+func (rt *runtimeS) serverObservers() []goat.ServerOption {
+	var o []goat.ServerOption
+	for i := 0; i < rt.sc.SStats; i++ {
+		o = append(o, goat.StatsHandler(nopStats{}))
+	}
+	return o
+}
+
+func (rt *runtimeS) clientObservers(i int) []goat.DialOption {
+	var o []goat.DialOption
+	for k := 0; k < rt.sc.CStats; k++ {
+		o = append(o, goat.WithStatsHandler(nopStats{}))
+	}
+	return o
+}
+
+func (rt *runtimeS) setupTopo()             { panic("verif-harness: topology not implemented: " + rt.sc.Topo) }
+func (rt *runtimeS) stepExtra(st Step) bool { return false }
